@@ -29,6 +29,9 @@ CHECKS = {
  "C08": ("model_checking", "explicit-state BFS over edit/evaluate/reset/run histories (fixpoint reached) + stateless preemption-bounded exploration of the SdSimulation worker-thread schedules under a controlled scheduler (sys.settrace line points, baton)",
          "(a) every history of equation/initial-value/constant edits, evaluations, cache resets and runs up to depth 5 (thorough 8, where the reachable state set closes) gives the values of a freshly evaluated reference model and identical reruns; (b) every schedule of the per-equation worker threads with <= 1 (thorough 2) preemptions at the source lines of Model.memoize, for 4 (6) request lists, yields a frame in which Y(t) = R(t) = Z(t) for a stochastic R.",
          "Preemption only at source-line granularity inside Model.memoize; sd_simulation.Thread replaced by a controlled thread class; 2 grid times.", "§4 C08"),
+ "C09": ("exploration", "exhaustive enumeration of run specs x all compositions of a run into run-step/run-steps/stream-steps calls x per-call settings sequences, all channels compared with each other and a piecewise Euler reference",
+         "For start x dt x N <= 3 (thorough 5): every composition of the grid into REST run-step / run-steps(k) / stream-steps calls with every settings sequence, plus run_scenarios df/dict/json, REST /run, the Python session (nested, flat) and session_results in all modes: same times start..stop and the same value per (equation, time); a setting acts from its own step on and not before.",
+         "stream-steps last in a composition; one scenario per session; Flask test client instead of a WSGI server.", "§4 C09"),
  "C10": ("exploration", "exhaustive enumeration of ordered operand-shape pairs x operators x result holders against numpy",
          "All ordered pairs of operand kinds (number, scalar element, vectors, matrices up to 3x3 / 4x4, named vectors/matrices with equal and different names) x {+,-,*,/,dot} x holder {converter, flow, stock}, and all aggregates: accepted equations equal numpy entry by entry with exactly the expected shape; mismatched shapes/names must raise.",
          "numpy is the oracle; element-wise operators require equal shapes (no broadcasting between arrays); arr_size judged for vectors only.", "§4 C10"),
